@@ -622,6 +622,6 @@ def avhrrGAC_io(satellite_name, xutcs, startdate, enddate, starttime, endtime,
                               data=xutcs.astype("int64"))
     dset3.attrs["units"] = "Milliseconds since 1970-01-01 00:00:00 UTC"
     dset3.attrs["calendar"] = "standard"
-    g2.attrs["midnight_scanline"] = np.bytes_(midnight_scanline)
+    g2.attrs["midnight_scanline"] = np.bytes_(str(midnight_scanline))
 
     fout.close()
